@@ -6,6 +6,8 @@ import (
 	"encoding/xml"
 	"fmt"
 	"io"
+	"os"
+	"runtime"
 	"strings"
 	"time"
 
@@ -33,6 +35,7 @@ import (
 	"mellium.im/xmpp/version"
 	"mellium.im/xmpp/xtime"
 	"verif.sim/simrt"
+	"verif.sim/simrt/simsync"
 )
 
 // C09 — no peer input can panic or wedge the library.
@@ -190,11 +193,11 @@ var c09Incoming = []string{
 	`<presence from='room@conf.example.net/nick' type='unavailable'><x xmlns='http://jabber.org/protocol/muc#user'><item affiliation='none' role='none'><actor nick='adm'/><reason>r</reason></item><status code='307'/></x></presence>`,
 	`<message from='room@conf.example.net'><x xmlns='http://jabber.org/protocol/muc#user'><invite from='friend@example.net/r'><reason>come</reason></invite><password>pw</password></x></message>`,
 	`<message from='friend@example.net/r'><x xmlns='jabber:x:conference' jid='room@conf.example.net' password='pw' reason='come' continue='true' thread='t'/></message>`,
-	`<iq type='set' id='ID' from='a@b.example/c'><open xmlns='http://jabber.org/protocol/ibb' block-size='4096' sid='s1' stanza='iq'/></iq>`,
+	`<iq type='set' id='ID' from='a@b.example/c' to='me@example.net/sut'><open xmlns='http://jabber.org/protocol/ibb' block-size='4096' sid='s1' stanza='iq'/></iq>`,
 	`<iq type='set' id='ID' from='a@b.example/c'><data xmlns='http://jabber.org/protocol/ibb' seq='0' sid='s1'>aGVsbG8=</data></iq>`,
 	`<message from='a@b.example/c'><data xmlns='http://jabber.org/protocol/ibb' seq='1' sid='s1'>aGVsbG8=</data></message>`,
 	`<iq type='set' id='ID' from='a@b.example/c'><close xmlns='http://jabber.org/protocol/ibb' sid='s1'/></iq>`,
-	`<iq type='set' id='ID' from='a@b.example/c'><open xmlns='http://jabber.org/protocol/ibb' block-size='65535' sid='s2' stanza='message'/></iq>`,
+	`<iq type='set' id='ID' from='a@b.example/c' to='me@example.net/sut'><open xmlns='http://jabber.org/protocol/ibb' block-size='65535' sid='s2' stanza='message'/></iq>`,
 	`<iq type='result' id='ID'/>`,
 	`<iq type='error' id='ID'><error type='cancel'><item-not-found xmlns='urn:ietf:params:xml:ns:xmpp-stanzas'/></error></iq>`,
 	`<message from='a@b.example/c' type='chat'><body>plain</body></message>`,
@@ -250,6 +253,7 @@ func c09Handlers(rc *RC) {
 		return
 	}
 	m, ih, _, _, mc := c09Mux(rc, e, e.NS)
+	echo := ch.Chance("workload", 1, 2)
 	lst := ih.Listen(e.Sess)
 	acc := rc.Spawn("acceptor", func() {
 		for {
@@ -258,6 +262,29 @@ func c09Handlers(rc *RC) {
 				return
 			}
 			cc := c
+			rc.S.Probes["ibb-stream-accepted"]++
+			if echo {
+				// an application that answers on the same stream: it is inside Write (waiting for the peer's
+				// acknowledgement, which this peer never sends) while more input for the stream arrives
+				rc.Spawn("ibb-reader-echo", func() {
+					buf := make([]byte, 64)
+					for {
+						n, err := cc.Read(buf)
+						if n > 0 {
+							if _, werr := cc.Write(buf[:n]); werr != nil {
+								return
+							}
+							if ferr := cc.(*ibb.Conn).Flush(); ferr != nil {
+								return
+							}
+						}
+						if err != nil {
+							return
+						}
+					}
+				})
+				continue
+			}
 			rc.Spawn("ibb-reader", func() { io.Copy(io.Discard, cc) })
 		}
 	})
@@ -286,6 +313,23 @@ func c09Handlers(rc *RC) {
 	var sb strings.Builder
 	var sample []string
 	cutMid := false
+	if ch.Chance("workload", 1, 5) {
+		// a coherent in-band bytestream conversation first: open, some data, close - none of our own data is ever acknowledged
+		sid := "conv"
+		carrier := []string{"iq", "message"}[ch.Int("workload", 2)]
+		fmt.Fprintf(&sb, `<iq type='set' id='cv0' from='a@b.example/c' to='me@example.net/sut'><open xmlns='http://jabber.org/protocol/ibb' block-size='%d' sid='%s' stanza='%s'/></iq>`, []int{1, 8, 4096}[ch.Int("workload", 3)], sid, carrier)
+		for k, nd := 0, ch.Range("workload", 0, 3); k < nd; k++ {
+			if carrier == "iq" {
+				fmt.Fprintf(&sb, `<iq type='set' id='cvd%d' from='a@b.example/c'><data xmlns='http://jabber.org/protocol/ibb' seq='%d' sid='%s'>aGVsbG8=</data></iq>`, k, k, sid)
+			} else {
+				fmt.Fprintf(&sb, `<message from='a@b.example/c'><data xmlns='http://jabber.org/protocol/ibb' seq='%d' sid='%s'>aGVsbG8=</data></message>`, k, sid)
+			}
+		}
+		if ch.Chance("workload", 2, 3) {
+			fmt.Fprintf(&sb, `<iq type='set' id='cvc' from='a@b.example/c'><close xmlns='http://jabber.org/protocol/ibb' sid='%s'/></iq>`, sid)
+		}
+		sample = append(sample, "ibb-conversation")
+	}
 	for i := 0; i < n; i++ {
 		s := strings.ReplaceAll(c09Incoming[ch.Int("workload", len(c09Incoming))], "ID", fmt.Sprintf("in%d", i))
 		if k := ch.Int("workload", 4); k > 0 {
@@ -332,10 +376,16 @@ func c09Handlers(rc *RC) {
 		done = true
 	})
 	st := rc.S.Run(func() bool { return e.ServeDone && done }, 200000, 2*time.Minute)
+	wedged := false
 	// c2/c3: Serve returns once the input has ended; a serve loop that is neither done nor waiting for input is wedged
 	rc.Evals["C09.c2"]++
 	if !e.ServeDone && serveT.Panic == nil {
-		rc.Failf("C09.c2", "serve-wedged:"+wedgeSite(rc), "the peer's input ended (%v) but Serve has not returned: stuck %v; input %q", st, rc.S.Stuck(), clip(input, 600))
+		if os.Getenv("VERIF_DEBUG_STACKS") != "" {
+			buf := make([]byte, 1<<20)
+			os.Stderr.Write(buf[:runtime.Stack(buf, true)])
+		}
+		wedged = true
+		rc.Failf("C09.c2", "serve-wedged:"+wedgeSite(rc)+lockHolders(), "the peer's input ended (%v) but Serve has not returned: stuck %v; input %q", st, rc.S.Stuck(), clip(input, 600))
 	}
 	stuck := rc.Teardown()
 	rc.CheckPanics("C09.c1")
@@ -345,7 +395,42 @@ func c09Handlers(rc *RC) {
 			real = append(real, s)
 		}
 	}
-	rc.Check("C09.c3", "stuck-after-teardown", len(real) == 0, "tasks still blocked after teardown: %v", real)
+	if !wedged {
+		// (after a wedge the tasks left behind are its consequence, reported above)
+		rc.Check("C09.c3", "stuck-after-teardown", len(real) == 0, "tasks still blocked after teardown: %v", real)
+	}
+}
+
+// lockHolders names the tasks (other than the serve loop itself) that hold a mutex at the moment of a wedge, without
+// their spawn counters: a lock held by a task that has finished or waits elsewhere is what the serve loop hangs on.
+func lockHolders() string {
+	seen := map[string]bool{}
+	var names []string
+	for _, n := range simsync.Held() {
+		if n == "serve" {
+			continue
+		}
+		var sb strings.Builder
+		skip := false
+		for _, r := range n {
+			switch {
+			case r == '#':
+				skip = true
+			case skip && r >= '0' && r <= '9':
+			default:
+				skip = false
+				sb.WriteRune(r)
+			}
+		}
+		if k := sb.String(); !seen[k] {
+			seen[k] = true
+			names = append(names, k)
+		}
+	}
+	if len(names) == 0 {
+		return ""
+	}
+	return ":held-by:" + strings.Join(names, ",")
 }
 
 // wedgeSite names where the serve task is blocked (signature of a wedge).
